@@ -342,11 +342,112 @@ func checkC03Random(ctx *core.Ctx, i int, rep *core.Report) {
 	}
 }
 
+// ---- structured large files: long index queues and deep overlap (reference encoder)
+
+// structuredFile builds family 0: one chunk of 1100..3000 messages followed by small chunks nested in its
+// time range (the iterator's index queue grows past every compaction threshold before the next chunk
+// loads); family 1: 260..420 chunks of two messages, one early and one late, so that every chunk's
+// time range contains every other's start (hundreds of chunks are live at once).
+func structuredFile(ctx *core.Ctx, i int) (data []byte, all []drive.Triple, where map[uint32]msgPos, desc string, err error) {
+	r := gen.Rng(ctx.Seed, "c03s", i)
+	p := &refmcap.Plan{Header: refmcap.Header{Library: "ref"}, SummaryOffsets: true}
+	top := func(it refmcap.Item) { p.Data = append(p.Data, refmcap.Elem{Item: &it}) }
+	top(refmcap.Item{Schema: smallSchema})
+	top(refmcap.Item{Channel: smallChanA})
+	top(refmcap.Item{Channel: smallChanB})
+	where = map[uint32]msgPos{}
+	ord := 0
+	sCanon := drive.CanonSchemaR(smallSchema)
+	comp := []string{"", "zstd", "lz4"}[i%3]
+	addMsg := func(cp *refmcap.ChunkPlan, ci int, t uint64) {
+		ch, sc := smallChanA, sCanon
+		if ord%2 == 1 {
+			ch, sc = smallChanB, "nil-schema"
+		}
+		m := &refmcap.Message{ChannelID: ch.ID, Sequence: uint32(ord), LogTime: t, PublishTime: t, Data: []byte{byte(ord), byte(ord >> 8)}}
+		cp.Items = append(cp.Items, refmcap.Item{Message: m})
+		all = append(all, drive.Triple{S: sc, C: drive.CanonChannelR(ch), M: drive.CanonMessageR(m), Seq: m.Sequence, LogTime: t, ChanID: ch.ID})
+		where[m.Sequence] = msgPos{ci, ord}
+		ord++
+	}
+	nch := 0
+	newChunk := func() *refmcap.ChunkPlan {
+		cp := &refmcap.ChunkPlan{Midx: refmcap.MidxMode(1 + i%2), Compression: comp}
+		p.Data = append(p.Data, refmcap.Elem{Chunk: cp})
+		nch++
+		return cp
+	}
+	switch i % 2 {
+	case 0:
+		n := 1100 + r.Intn(1900)
+		big := newChunk()
+		for k := 0; k < n; k++ {
+			t := uint64(10 * k)
+			if r.Intn(50) == 0 && k > 0 {
+				t = uint64(10 * (k - 1)) // occasional ties and small inversions
+			}
+			addMsg(big, 0, t)
+		}
+		small := 2 + r.Intn(5)
+		for c := 0; c < small; c++ {
+			cp := newChunk()
+			base := uint64(r.Intn(10 * n))
+			if c == 0 {
+				base = uint64(10*n - 40) // nested near the end
+			} else if c == 1 {
+				base = 15 // nested near the start
+			}
+			for k := 0; k < 1+r.Intn(4); k++ {
+				addMsg(cp, nch-1, base+uint64(5*k))
+			}
+		}
+		desc = fmt.Sprintf("long-queue: one chunk of %d messages + %d small nested chunks (%s)", n, small, nz(comp))
+	default:
+		n := 260 + r.Intn(160)
+		for c := 0; c < n; c++ {
+			cp := newChunk()
+			addMsg(cp, c, uint64(c))
+			addMsg(cp, c, uint64(1_000_000+c))
+		}
+		desc = fmt.Sprintf("deep-overlap: %d chunks all overlapping one another (%s)", n, nz(comp))
+	}
+	for _, op := range []byte{refmcap.OpSchema, refmcap.OpChannel, refmcap.OpStatistics, refmcap.OpChunkIndex} {
+		p.Summary = append(p.Summary, refmcap.SummaryGroup{Op: op})
+	}
+	enc, err := refmcap.Encode(p)
+	if err != nil {
+		return nil, nil, nil, "", err
+	}
+	return enc.Bytes, all, where, desc, nil
+}
+
+func checkC03Structured(ctx *core.Ctx, i int, rep *core.Report) {
+	data, all, where, desc, err := structuredFile(ctx, i)
+	if err != nil {
+		rep.Inconclusive("reference encoder failed: " + err.Error())
+		return
+	}
+	witness := map[string]any{"structured_file": i, "description": desc}
+	rep.Distinct("structured", i)
+	rep.Count("structured_files", 1)
+	for _, order := range []mcap.ReadOrder{mcap.LogTimeOrder, mcap.ReverseLogTimeOrder} {
+		kind, msg, n := checkTimeOrdered(data, all, where, order, nil)
+		rep.Count("messages_checked", int64(n))
+		if kind != "" {
+			rep.Violate(kind, fmt.Sprintf("structured file %d (%s): %s", i, desc, msg), witness)
+			return
+		}
+	}
+	if i < 2 {
+		rep.Sample(map[string]any{"structured_file": i, "description": desc, "messages": len(all), "bytes": len(data)})
+	}
+}
+
 func RunC03(ctx *core.Ctx, rep *core.Report) {
 	rep.Rule = "small scope, exhaustive: every file of 1..3 chunks x 0..3 messages per chunk with log times from {0,1,2,3} on 2 channels, produced by the reference encoder (ids 0..84 one chunk, 85..7309 two, 7310..621434 three; message-less chunks alternate between 'schema/channel records only' and 'no record'). " +
 		"quick: the complete 1-2-chunk space plus a seeded 20000-file sample of the 3-chunk space; thorough: all 621435 files, every 8th also under all 15 windows x 3 topic selections. " +
 		"Plus random large files (Go writer with tiny chunk sizes / reference encoder with random partitions): tens to hundreds of chunks, heavy ties, log times at 0 and up to 2^64-1. " +
-		"Oracle per read: exactly-once as multiset, monotone log time, same-chunk ties in (reverse) file order, second read identical. distinct_nontrivial counts distinct files read."
+		"Plus structured large files from the reference encoder: 'long queue' (one chunk of 1100-3000 messages followed by small chunks nested in its range) and 'deep overlap' (260-420 chunks that all overlap one another). Oracle per read: exactly-once as multiset, monotone log time, same-chunk ties in (reverse) file order, second read identical. distinct_nontrivial counts distinct files read."
 	rep.Assumptions = []string{"chunk membership and in-chunk order come from the reference encoder/decoder", "ties across chunks are unconstrained, as in the property", "windows of the random files are taken from message times, so an upper bound of 2^64-1 excludes messages at that time as the half-open window requires"}
 	total := arrangements + arrangements*arrangements + arrangements*arrangements*arrangements
 	two := arrangements + arrangements*arrangements
@@ -380,5 +481,10 @@ func RunC03(ctx *core.Ctx, rep *core.Report) {
 	core.Parallel(ctx, rep, nr, func(i int) {
 		rep.Eval(1)
 		checkC03Random(ctx, i, rep)
+	})
+	ns := ctx.Pick(24, 1200)
+	core.Parallel(ctx, rep, ns, func(i int) {
+		rep.Eval(1)
+		checkC03Structured(ctx, i, rep)
 	})
 }
